@@ -36,6 +36,9 @@ type strFam struct {
 }
 
 func (f *strFam) add(sp *engine.StrSpace, batch int64, exec strExec) {
+	if !subWanted(sp.Name) {
+		return
+	}
 	d := &strDef{sp: sp, exec: exec, batch: batch, first: f.n}
 	f.defs = append(f.defs, d)
 	f.n += (sp.Count() + batch - 1) / batch
